@@ -9,5 +9,5 @@ Separate Extraction
   validate_trace_length get_num_steps apply_steps steps overlaps_with a_cmp prepare_assertions group_key
   eval_degree exemptions_ok
   fpow from_transition from_assertion d_degree eval_numerator eval_exemptions evaluate_at
-  poly_eval idft bc_new bc_evaluate_at
+  poly_eval idft bc_poly_offset bc_new bc_evaluate_at
   zp_ops P64 P62 P128.
